@@ -129,6 +129,20 @@ fn substitutions(e: &TypeEntry, a: &Atom, rng: &mut impl RngCore) -> Vec<Sub> {
                 v.push(Sub { class: format!("pair-index:+{}", d), bytes: vec![orig[0].wrapping_add(d)], expect: Expect::Reject });
             }
         }
+        Kind::Len => {
+            // a sequence whose announced length differs from what follows is not a canonical encoding
+            let n = le64(orig);
+            let is_vec = e.name.contains("Vec<");
+            for (nm, val) in [("n+1", n.wrapping_add(1)), ("n+2", n.wrapping_add(2)), ("2n+1", n.wrapping_mul(2).wrapping_add(1)), ("2^32", 1u64 << 32), ("2^63", 1u64 << 63), ("2^64-1", u64::MAX)] {
+                if val > n {
+                    v.push(Sub { class: format!("length-prefix:{}", nm), bytes: val.to_le_bytes().to_vec(), expect: Expect::Reject });
+                }
+            }
+            if !is_vec && n > 0 {
+                v.push(Sub { class: "length-prefix:n-1".into(), bytes: (n - 1).to_le_bytes().to_vec(), expect: Expect::Reject });
+                v.push(Sub { class: "length-prefix:0".into(), bytes: 0u64.to_le_bytes().to_vec(), expect: Expect::Reject });
+            }
+        }
         Kind::I64 => {
             // a payment amount has no decode-time invariant: every i64 must round trip
             for x in [i64::MIN, -1, 0, i64::MAX] {
